@@ -13,6 +13,25 @@ import (
 	staking "github.com/oasisprotocol/oasis-core/go/staking/api"
 )
 
+// vHookSubscriber stands for an application subscribed to account hooks: on every invocation it records
+// what it authorised in the state of the context it is called with, or refuses.
+type vHookSubscriber struct{ calls int }
+
+var errVHookRefused = staking.ErrForbidden
+
+func (h *vHookSubscriber) Subscribe(any, abciAPI.MessageSubscriber) {}
+
+func (h *vHookSubscriber) Publish(ctx *abciAPI.Context, _ abciAPI.Message) (any, error) {
+	h.calls++
+	if symx.Bool("hookRefuses") {
+		return nil, errVHookRefused
+	}
+	if err := ctx.State().Insert(ctx, []byte("\xEFverif/hook-quota-used"), []byte{byte(h.calls)}); err != nil {
+		return nil, err
+	}
+	return struct{}{}, nil
+}
+
 func vTxBody(w *vWorld, method int) (transaction.MethodName, any) {
 	switch method {
 	case 0:
@@ -25,7 +44,7 @@ func vTxBody(w *vWorld, method int) (transaction.MethodName, any) {
 		return staking.MethodReclaimEscrow, &staking.ReclaimEscrow{Account: w.addrs[w.escrow], Shares: *vQ("amount")}
 	case 4:
 		return staking.MethodAllow, &staking.Allow{Beneficiary: w.addrs[1], Negative: symx.Bool("negative"), AmountChange: *vQ("amount")}
-	case 5:
+	case 5, 6:
 		return staking.MethodWithdraw, &staking.Withdraw{From: w.addrs[1], Amount: *vQ("amount")}
 	default:
 		return staking.MethodTransfer, &staking.Transfer{To: staking.BurnAddress, Amount: *vQ("amount")}
@@ -50,6 +69,14 @@ func VerifC08Tx() {
 		acct, _ := w.state.Account(w.ctx, w.addrs[1])
 		acct.General.Allowances = map[staking.Address]quantity.Quantity{w.addrs[0]: *vQ("allowance")}
 		vMust(w.state.SetAccount(w.ctx, w.addrs[1], acct), "SetAccount")
+	}
+	if method == 6 {
+		// withdraw from an account whose withdrawals are authorised by a hook of another application (as vault
+		// accounts are): the subscriber keeps its own books in the consensus state and may refuse
+		acct, _ := w.state.Account(w.ctx, w.addrs[1])
+		acct.General.Hooks = map[staking.HookKind]staking.HookDestination{staking.HookKindWithdraw: {Module: "verif-hook"}}
+		vMust(w.state.SetAccount(w.ctx, w.addrs[1], acct), "SetAccount")
+		w.app.md = &vHookSubscriber{}
 	}
 	w.vSetParams()
 	w.vCheckInvariants("pre-state")
